@@ -10,7 +10,7 @@ import (
 )
 
 func init() {
-	props["C10"] = &prop{gen: genC10, eval: evalC10}
+	props["C10"] = &prop{gen: genC10, eval: evalC10, pure: true}
 }
 
 func u64(s string) uint64 {
